@@ -353,17 +353,22 @@ def describe_exc(e):
         frames.append(tb.tb_frame.f_code)
         tb = tb.tb_next
     pdir = os.path.join(REPO, "paramiko") + os.sep
+    via_run = False
     for code in frames:
         fn = os.path.abspath(code.co_filename)
         if fn.startswith(pdir):
             site = "%s:%s" % (fn[len(pdir):], code.co_name)
+            if site == "transport.py:run":
+                via_run = True
     # the parse site: the innermost paramiko frame that is not a generic decoder
     for code in frames:
         fn = os.path.abspath(code.co_filename)
         if fn.startswith(pdir) and fn[len(pdir):] not in ("message.py", "util.py"):
             outer = "%s:%s" % (fn[len(pdir):], code.co_name)
+    # via_run = raised on the transport thread (and handed over through saved_exception); otherwise the exception
+    # was raised in the caller's own thread, by an API call that parsed stored peer data itself
     return {"present": True, "cls": type(e).__name__, "mro": mro, "site": site, "parser": outer,
-            "text": str(e)[:160]}
+            "via_run": via_run, "text": str(e)[:160]}
 
 
 class FullTap(ns.Tap):
@@ -499,7 +504,7 @@ class Pair:
             self.ts.start_server(ev, self.server)
         return ev
 
-    def victim_api(self, call):
+    def victim_api(self, call, key="rsa"):
         v = self.victim
         if call == "start_server":
             fn = lambda: v.start_server(server=self.server)      # noqa
@@ -512,7 +517,7 @@ class Pair:
         elif call == "auth_none":
             fn = lambda: v.auth_none("u")                         # noqa
         elif call == "auth_publickey":
-            fn = lambda: v.auth_publickey("u", ns.host_key("rsa"))   # noqa
+            fn = lambda: v.auth_publickey("u", ns.host_key(key))   # noqa
         elif call == "auth_interactive":
             fn = lambda: v.auth_interactive("u", lambda title, instr, prompts: ["pw"] * len(prompts))   # noqa
         elif call == "open_channel":
@@ -903,7 +908,8 @@ class Stagehand:
     def build(self, role, stage, method, msg, suite=None):
         rnd = self.rnd
         kex = rnd.choice(KEX_ALGS[rnd.choice(["c25519", "ecdh", "dh"])])
-        pair = Pair(role, rnd, kex=kex, hostkey=rnd.choice(HOSTKEYS), suite=suite, client_cls=self.client_cls)
+        ccls = paramiko.transport.ServiceRequestingTransport if method.endswith("@srt") else self.client_cls
+        pair = Pair(role, rnd, kex=kex, hostkey=rnd.choice(HOSTKEYS), suite=suite, client_cls=ccls)
         if stage in ("gss_token", "gss_mic") or msg.startswith("USERAUTH_REQUEST.gss"):
             pair.server.gss = True
         if not pair.start_both():
@@ -1078,6 +1084,14 @@ def post_case(case, rnd, hand, suite=None):
             body = mutate_payload(template(msg, pair, chan), types, idx, cls, rnd)
             wire = (bytes([type_no(msg)]) + body)[:300].hex()
             reached, stuck = pair.deliver(type_no(msg), body)
+            if stage == "deferred" and reached and not stuck and pair.victim.is_active():
+                # the message was stored; now the application makes the call that parses what was stored
+                later = method.split("@")[0]
+                if later.startswith("publickey-"):
+                    pair.victim_api("auth_publickey", key=later.split("-", 1)[1])
+                else:
+                    pair.victim_api("auth_password")
+                pair.api.done.wait(8.0)
         out = pair.outcome()
         out["stuck"] = out["stuck"] or stuck
         out["reached"] = reached
